@@ -36,7 +36,7 @@ REQUIRED_COUNTERS = ["dates_and_timestamps_checked", "container_anchors_checked"
 FAKE = os.path.join(VERIF_ROOT, "tools", "fake-eyaml")
 PLAIN = ["s3cret", "p@ss w0rd", "x", "multi word secret value", "0123456789" * 9, "a:b", "tr=ue",
          "line1\r\nline2\r\nline3", "cr\ronly", "two\nlines", "tab\tsep", "-----BEGIN KEY-----\r\nAAAA\r\n-----END KEY-----",
-         "  indented passphrase", "\tkey = value", " x", "\n\nafter blank lines"]      # leading white space is part of the secret
+         "  indented passphrase", "\tkey = value", " x", "\n\nafter blank lines", "ENC[looks,encrypted]"]      # leading white space is part of the secret
 
 
 def stream(ident, n):
